@@ -195,6 +195,9 @@ impl DmlExecutor {
         self.logger
             .log_insert(table_id, row_id.value(), Box::from(&tuple))?;
 
+        // The row belongs to this transaction's write set
+        self.ctx.record_write(table_id, row_id.value())?;
+
         // Table access scope
         {
             // Insert into main table
@@ -339,6 +342,9 @@ impl DmlExecutor {
             Box::from(&updated_tuple),
         )?;
 
+        // The row belongs to this transaction's write set
+        self.ctx.record_write(table_id, row_id.value())?;
+
         // Update the main table
         btree.update(root, updated_tuple, &schema)?;
 
@@ -406,6 +412,9 @@ impl DmlExecutor {
         // Log the delete
         self.logger
             .log_delete(table_id, row_id.value(), Box::from(&tuple))?;
+
+        // The row belongs to this transaction's write set
+        self.ctx.record_write(table_id, row_id.value())?;
 
         // Update the main table
         btree.update(root, deleted_tuple, &schema)?;
